@@ -94,8 +94,14 @@ def run(F, chk):
             rd.ok(key, b.where(ups[0][0]), "every SessionResult::Upgrade is dominated by the Ok edge of parse_v2_header")
         elif ups:
             rd.violation(key, b.where(ups[0][0]), "the session can be upgraded without a successfully parsed PROXY header")
-        # remainder: local(s) named rest
-        rest = b.named_local("rest")
+                # nom's Ok((remaining input, value)): the remainder is whatever is bound from (res as Ok).0.0 (any name)
+        rest = []
+        for x, si, s2 in b.stmts():
+            rv = s2.get("rv")
+            if rv and rv["k"] in ("use", "ref") and isinstance(s2.get("lhs"), int):
+                pl = op_place(rv["a"]) if rv["k"] == "use" else rv["pl"]
+                if isinstance(pl, dict) and pl["l"] == res and pl["p"][:2] == ["d|Ok", "f|core::result::Result|Ok|0"] and pl["p"][2:3] == ["t|0"]:
+                    rest.append(s2["lhs"])
         key = "%s|rest of parse_v2_header" % b.path
         if not rest:
             re_.violation(key, b.where(bi), "the remainder returned by parse_v2_header is not even bound: bytes after the header are dropped")
